@@ -1,4 +1,8 @@
-import Preflate.Props.C06
+import Preflate.Props.Library
+#print axioms Preflate.library_found_zlib
+#print axioms Preflate.library_found_gzip
+#print axioms Preflate.library_found_zip
+#print axioms Preflate.library_found_idat
 #print axioms Preflate.found_zlib
 #print axioms Preflate.found_gzip
 #print axioms Preflate.found_zip
